@@ -128,6 +128,15 @@ def basis_all(T, p, x, exact=False):
         zero, one = 0.0, 1.0
     m = len(T)
     b_dom = T[m - p - 1]
+    a_dom = T[p]
+    # pygyro rounds its interpolation points to 15 decimals, which can put an end point a few ulp
+    # outside the domain; such points are evaluated at the end point (as pygyro's span search does)
+    if not exact:
+        slack = 1e-14 * max(1.0, abs(a_dom), abs(b_dom))
+        if a_dom - slack <= x < a_dom:
+            x = a_dom
+        elif b_dom < x <= b_dom + slack:
+            x = b_dom
     # degree 0
     B = [zero] * (m - 1)
     if x == b_dom:
